@@ -5,6 +5,7 @@ select part (C11)   bermuda/triangle.py
     Triangle.clip         every `if <bound> is not None: cells = filter(lambda cell: <cmp>, cells)`
                           -> (which bound, cell attribute, comparison operator, guard kind); any order
     Triangle.__getitem__  the three filter lambdas / clip keywords / date.min-date.max defaults
+    TriangleSlice.__getitem__  the same for the two-index form
 join part (C10)     bermuda/utils/join.py, bermuda/utils/merge.py
     join                  index-key tuples (cumulative / incremental), the set operation forming
                           `all_coordinates`, the if/elif chain over join_type: each branch's keep
@@ -261,12 +262,48 @@ def __getitem__(self, index):
 '''
 
 
-def _getitem_nodes(fn):
-    """decision nodes in a fixed order: [meta lambda, period lambda, lo default, hi default, clip call]"""
+REF_GETITEM_SLICE = '''
+def __getitem__(self, index):
+    if isinstance(index, int):
+        return self._cells[index]
+    if isinstance(index, slice):
+        return TriangleSlice(self._cells[index])
+    if len(index) == 2:
+        period_slice, evaluation_slice = index
+    else:
+        raise ValueError("x")
+    if isinstance(period_slice, slice):
+        period_start = period_slice.start
+        period_end = period_slice.stop
+    elif isinstance(period_slice, datetime.date):
+        period_start, period_end = period_slice, period_slice
+    else:
+        raise ValueError("x")
+    if not period_start:
+        period_start = datetime.date.min
+    if not period_end:
+        period_end = datetime.date.max
+    filtered = self.filter(lambda cell: period_start <= cell.period_start <= period_end)
+    if isinstance(evaluation_slice, slice):
+        evaluation_start = evaluation_slice.start
+        evaluation_end = evaluation_slice.stop
+    elif isinstance(evaluation_slice, datetime.date):
+        evaluation_start, evaluation_end = evaluation_slice, evaluation_slice
+    else:
+        raise ValueError("x")
+    clipped = filtered.clip(min_eval=evaluation_start, max_eval=evaluation_end)
+    if any(isinstance(ind, slice) for ind in index):
+        return TriangleSlice(clipped.cells)
+    return clipped._cells[0]
+'''
+
+
+def _getitem_nodes(fn, n_lambdas=2):
+    """decision nodes in a fixed order: [(meta lambda,) period lambda, lo default, hi default, clip call]"""
     lambdas = [n for n in ast.walk(fn) if isinstance(n, ast.Lambda)]
     lambdas.sort(key=lambda n: (n.lineno, n.col_offset))
-    if len(lambdas) != 2:
-        raise Unsupported(f"__getitem__: {len(lambdas)} lambdas, 2 expected")
+    if len(lambdas) != n_lambdas:
+        raise Unsupported(f"__getitem__: {len(lambdas)} lambdas, {n_lambdas} expected")
     dfl = []
     for st in strip_doc(fn):
         if (isinstance(st, ast.If) and isinstance(st.test, ast.UnaryOp) and isinstance(st.test.op, ast.Not)
@@ -281,10 +318,15 @@ def _getitem_nodes(fn):
     return lambdas + dfl + clips
 
 
-def translate_getitem(tree):
-    fn = find_def(tree, "__getitem__", "Triangle")
-    nodes = _getitem_nodes(fn)
-    lam_meta, lam_period, d_lo, d_hi, clipcall = nodes
+def translate_getitem(tree, cls="Triangle"):
+    fn = find_def(tree, "__getitem__", cls)
+    with_meta = cls == "Triangle"
+    nodes = _getitem_nodes(fn, 2 if with_meta else 1)
+    if with_meta:
+        lam_meta, lam_period, d_lo, d_hi, clipcall = nodes
+    else:
+        lam_period, d_lo, d_hi, clipcall = nodes
+        lam_meta = ast.parse("lambda cell: cell.metadata == metadata").body[0].value   # no metadata component
     # cell.metadata <op> metadata
     if not (len(lam_meta.args.args) == 1 and isinstance(lam_meta.body, ast.Compare) and len(lam_meta.body.ops) == 1):
         bail(lam_meta, "metadata filter")
@@ -360,7 +402,10 @@ def translate_getitem(tree):
         bail(clipcall, "clip must receive both ends of the evaluation slice")
     # the period slice is the first, the evaluation slice the second element of the index, the
     # metadata the third: checked by the skeleton (tuple unpacking order) below
-    same_skeleton("Triangle.__getitem__", fn, nodes, REF_GETITEM, _getitem_nodes)
+    if with_meta:
+        same_skeleton("Triangle.__getitem__", fn, nodes, REF_GETITEM, _getitem_nodes)
+    else:
+        same_skeleton("TriangleSlice.__getitem__", fn, nodes, REF_GETITEM_SLICE, lambda f: _getitem_nodes(f, 1))
     del meta_name
     return dict(attr=attr, lo_op=lo_op, hi_op=hi_op, lo_d=lo_d, hi_d=hi_d, ev_lo=ev_lo, ev_hi=ev_hi, meta_op=meta_op)
 
@@ -645,6 +690,8 @@ def extract(repo: Path, parts=("select", "join")) -> dict:
         out["clip"] = translate_clip(tree)
         # a fresh parse: the skeleton comparison rewrites the tree it is given
         out["getitem"] = translate_getitem(ast.parse((Path(repo) / "bermuda" / "triangle.py").read_text()))
+        out["getitem_slice"] = translate_getitem(ast.parse((Path(repo) / "bermuda" / "triangle.py").read_text()),
+                                                 cls="TriangleSlice")
     if "join" in parts:
         out["join"] = translate_join(ast.parse((Path(repo) / "bermuda" / "utils" / "join.py").read_text()))
         out["merge"] = translate_merge(ast.parse((Path(repo) / "bermuda" / "utils" / "merge.py").read_text()))
@@ -658,6 +705,10 @@ def emit(d: dict) -> str:
         L.append(f"Definition gen_clip : clip_spec :=\n  [ {ents} ].\n")
         g = d["getitem"]
         L.append("Definition gen_getitem : getitem_desc :=\n  mkGetitem "
+                 f"{g['attr']} {g['lo_op']} {g['hi_op']} {g['lo_d']} {g['hi_d']} {g['ev_lo']} {g['ev_hi']} {g['meta_op']}.\n")
+        g = d["getitem_slice"]
+        L.append("(* TriangleSlice.__getitem__ (two-index form; no metadata component: gi_meta_op unused) *)\n"
+                 "Definition gen_getitem_slice : getitem_desc :=\n  mkGetitem "
                  f"{g['attr']} {g['lo_op']} {g['hi_op']} {g['lo_d']} {g['hi_d']} {g['ev_lo']} {g['ev_hi']} {g['meta_op']}.\n")
     if "join" in d:
         j = d["join"]
